@@ -154,6 +154,7 @@ def parseRule (d : StaticMap) (m : Mod) : Except Err StaticMap :=
     | [modInfo, residues] =>
       match parseModifications modInfo with
       | .error e => .error e
+      | .ok [] => .error .valueError      -- no bracket group: `<a@P>` (raised since repo commit cbe6ff3)
       | .ok ms => .ok ((splitOnChar ',' residues).foldl (fun d t => dictExtend d t ms) d)
     | _ => .error .valueError           -- "not enough / too many values to unpack"
   | _ => .error .typeError
